@@ -41,6 +41,14 @@ package providers
 //@ ensures[groups-must-intersect-when-configured] ret0 <==> len(p.AllowedGroups) == 0
 //@     || exists k int :: 0 <= k && k < len(s.Groups) && inmap(p.AllowedGroups, s.Groups[k])
 
+// the allowed set is exactly the configured list (an empty list configures no restriction)
+//@ func (*ProviderData).setAllowedGroups
+//@ safety
+//@ prop C08
+//@ loop 0 invariant[exactly-the-groups-so-far] p.AllowedGroups != nil && rangeindex >= -1 && rangeindex < len(groups)
+//@     && (forall g string :: inmap(p.AllowedGroups, g) <==> exists j int :: 0 <= j && j <= rangeindex && groups[j] == g)
+//@ ensures[exactly-the-configured-groups] forall g string :: inmap(p.AllowedGroups, g) <==> exists j int :: 0 <= j && j < len(groups) && groups[j] == g
+
 // ------------------------------------------------------------------ C04 / C14: sessions only from verified ID tokens
 //@ func (*ProviderData).verifyIDToken
 //@ prop C04 C14
@@ -89,6 +97,7 @@ package providers
 
 //@ func (*ProviderData).buildSessionFromClaims
 //@ prop C04 C14
+//@ loop 0 invariant[claim-table-index] rangeindex >= -1
 //@ ensures[no-error-means-a-session] ret1 == nil ==> ret0 != nil
 //@ ensures[unverified-email-refused] ret1 == nil && rawIDToken != "" && p.EmailClaim == "email" && !p.AllowUnverifiedEmail ==>
 //@     called(GetClaimInto#1) && ret1(GetClaimInto#1) == nil && arg(GetClaimInto#1, 0) == "email_verified"
